@@ -49,7 +49,19 @@ def main(argv: list[str]) -> int:
     seed = int(os.environ.get('VERIF_SEED', '0') or 0)
     mod = importlib.import_module(f'vf.props.{pid.lower()}')
     t0 = time.time()
-    res = mod.run(tier)  # -> dict(result)
+    try:
+        res = mod.run(tier)  # -> dict(result)
+    except Exception as e:  # a translator met a construct it does not know, rustc failed, ...: never a pass, never an alarm
+        import traceback
+
+        kind = type(e).__name__
+        if kind in ('Unsupported',) or 'rustc failed' in str(e):
+            print(f'INCONCLUSIVE property={pid}: {kind}: {e}')
+            res = {'levels': [], 'inconclusive': [f'{kind}: {e}'], 'errors': []}
+        else:
+            print(f'HARNESS-ERROR property={pid}: {kind}: {e}')
+            traceback.print_exc()
+            res = {'levels': [], 'errors': [f'harness-error: {kind}: {e}']}
     wall = time.time() - t0
     return finish(pid, tier, seed, mod, res, wall)
 
@@ -170,8 +182,10 @@ def finish(pid: str, tier: str, seed: int, mod: Any, res: dict, wall: float) -> 
         'wall_s': round(wall, 2),
         'violations': len(viol_new),
     }
-    os.makedirs(os.path.join(ROOT, 'evidence'), exist_ok=True)
-    json.dump(ev, open(os.path.join(ROOT, 'evidence', f'{pid}.json'), 'w'), indent=1, ensure_ascii=False, default=str)
+    # development runs against a scratch worktree (PI2_REPO) must not overwrite the evidence of runs against /repo
+    evdir = 'evidence' if not os.environ.get('PI2_REPO') else 'evidence_dev'
+    os.makedirs(os.path.join(ROOT, evdir), exist_ok=True)
+    json.dump(ev, open(os.path.join(ROOT, evdir, f'{pid}.json'), 'w'), indent=1, ensure_ascii=False, default=str)
 
     for k in known:
         if k['id'] in known_hit:
